@@ -969,6 +969,7 @@ def _process_step_result_tick(
                 requirements=result.requirements,
                 has_requirements=bool(len(result.requirements)),
                 resolved_event=None,
+                recovery_counts=dict(this_execution.recovery_counts),
             )
             if existing is not None:
                 worker_state.collected_waiters[existing] = new_waiter
@@ -1124,7 +1125,10 @@ def _process_add_event_tick(
                 waiter_resolved_steps.add(step_name)
                 wait_condition.resolved_event = tick.event
                 subcommands = _add_or_enqueue_event(
-                    EventAttempt(event=wait_condition.event),
+                    EventAttempt(
+                        event=wait_condition.event,
+                        recovery_counts=dict(wait_condition.recovery_counts),
+                    ),
                     step_name,
                     state.workers[step_name],
                     now_seconds,
@@ -1238,7 +1242,9 @@ def _process_waiter_timeout_tick(
         return state, commands
     waiter.timed_out = True
     subcommands = _add_or_enqueue_event(
-        EventAttempt(event=waiter.event),
+        EventAttempt(
+            event=waiter.event, recovery_counts=dict(waiter.recovery_counts)
+        ),
         tick.step_name,
         worker_state,
         now_seconds,
